@@ -186,6 +186,7 @@ func main() {
 	runResponseDomain()
 	runNestDomain(thorough)
 	runAnyDomain(thorough)
+	runKindsDomain()
 	// the two large sweeps last: if the internal budget runs out, they are what is cut short
 	runStringGrid(thorough)
 	runCodePoints(thorough)
@@ -222,6 +223,7 @@ func main() {
 		"Duration designators use the conventions documented by github.com/sosodev/duration: Y=365d, M=Y/12, W=7d, D=24h",
 		"an Omittable that is not set marshals its zero value by design; only Value() is compared after the round trip",
 		"numeric carriers fed to Unmarshal* are integer-valued (the integer boundary grid); a Float target may round to the nearest float64, every other target must keep the exact number or return an error",
+		"Any/Map: a value JSON cannot represent (NaN/Inf, invalid json.Number or RawMessage, failing or invalid MarshalJSON, out-of-range time, unsupported kind, cycle) must be reported - an error, or a panic carrying an error, which gqlgen recovers into an error response discarding the buffer - or written as valid JSON with exactly one value (or null for an enclosing subtree) in its place; an empty json.Number is written as 0 by encoding/json and accepted",
 		"MarshalFloat (not the default binding) is only given finite values; non-finite values go through MarshalFloatContext, the default Float binding",
 	}
 	c.Finish()
